@@ -131,7 +131,8 @@ def read(text, dia, cfg):
         raise Fail("empty output")
     begin_g, end_g, begin_o, end_o = KEYWORDS[dia]
     stack = []
-    eqcols = [dict()]            # per open block: set of '=' columns of assignments that fit
+    eqcols = [[]]                # per open block: ('=' column, length of the line, on one physical line) per assignment
+    closed = []
     depth_paren = 0
     nstatements = 0
     last = len(lines) - 1
@@ -186,7 +187,7 @@ def read(text, dia, cfg):
                 if not stack:
                     raise Fail("end statement without an open block")
                 kw, name = stack.pop()
-                eqcols.pop()
+                closed.append(eqcols.pop())
                 if not bool(word == (end_g if kw == "g" else end_o)):
                     raise Fail("block closed by the wrong end keyword")
                 if lead != len(stack) * indent:
@@ -201,7 +202,7 @@ def read(text, dia, cfg):
             if lead != len(stack) * indent:
                 raise Fail("begin statement not indented by level * indent")
             stack.append(("g" if bool(key == begin_g) else "o", to_text(val)))
-            eqcols.append(dict())
+            eqcols.append([])
             continue
         if bool(key == end_g) or bool(key == end_o):
             if not aggend:
@@ -209,7 +210,7 @@ def read(text, dia, cfg):
             if not stack:
                 raise Fail("end statement without an open block")
             kw, name = stack.pop()
-            eqcols.pop()
+            closed.append(eqcols.pop())
             if not bool(key == (end_g if kw == "g" else end_o)):
                 raise Fail("block closed by the wrong end keyword")
             if not bool(to_text(val) == name):
@@ -231,19 +232,23 @@ def read(text, dia, cfg):
                 raise Fail("ODL name longer than 30 characters")
             if not odl_name(kes):
                 raise Fail("ODL name is not an upper-case identifier")
-        # '=' alignment among siblings whose line fits within the width
+        # '=' alignment among siblings (checked when the block is complete)
         phys_len = first_physical_len(raw, newline)
-        fits = (phys_len + len(newline) <= width) if isinstance(width, int) else bool(phys_len + len(newline) <= width)
-        if fits:
-            eqcols[-1][lead + eq] = eqcols[-1].get(lead + eq, 0) + 1
+        eqcols[-1].append((lead + eq, phys_len, phys_len == len(raw)))
         # symbol strings (ODL/PDS3): single-quoted text has no format effector
         if odl:
             check_symbols(val)
     if stack:
         raise Fail("block left open at END")
-    for cols in eqcols:
-        if len(cols) > 1:
-            raise Fail("'=' of sibling assignments that fit on a line are not aligned")
+    for recs in closed + eqcols:
+        if not recs:
+            continue
+        # the encoder pads every name to the longest sibling name; a statement written on one line whose padded
+        # form (line end included, as the encoder counts it) is within the width must have its '=' in that column
+        maxcol = max(c for c, _, _ in recs)
+        for col, plen, single in recs:
+            if col != maxcol and single and bool(plen + (maxcol - col) + len(newline) <= width):
+                raise Fail("'=' of sibling assignments that fit on a line are not aligned")
     return {"statements": nstatements}
 
 
@@ -313,9 +318,7 @@ class Surface(Harness):
 
     def inputs(self, ctx):
         inp = {"x": rt.leaf_inputs(ctx, "str", self.n, self.dialect)}
-        if (rt.config(self.dialect, self.cfg) or {}).get("width") == "sym":
-            inp["width"] = SymInt(ctx.fresh_int("width", 30, 100))
-        return inp
+        return rt.width_input(ctx, self.dialect, self.cfg, inp)
 
     def prop_fn(self, L, inp):
         x = inp["x"]
@@ -331,7 +334,7 @@ class Surface(Harness):
         except (ValueError, TypeError):
             return Outcome("refused", True, None)
         full = dict(rt.config(self.dialect, self.cfg) or {})
-        if full.get("width") == "sym":
+        if full.get("width") in rt.WIDTHS:
             full["width"] = inp["width"]
         try:
             r = read(text, self.dialect, full)
